@@ -246,7 +246,7 @@ def run(ctx):
         x = rng.choice([0.0, 1.0, rng.uniform(-100, 100), 1e-3, 3, -7, 0, 12])
         opts = {}
         if rng.random() < 0.5:
-            opts['base_step'] = rng.choice([1.0, 0.5, 1e-4, 3.0])
+            opts['base_step'] = rng.choice([1.0, 0.5, 1e-4, 3.0, -0.5, -1e-4, -1e-9, -3e-8, 1e-9])       # either sign, down to 1e-9
         if rng.random() < 0.5:
             opts['step_ratio'] = rng.choice([2.0, 1.6, 4.0, 8.0, rng.uniform(1.5, 16)])
         if rng.random() < 0.5:
